@@ -447,6 +447,7 @@ def run_matrix(task):
 
 
 def run_repeats(task):
+    import numpy as np
     from xyzpy.utils import estimate_from_repeats
 
     out = {"states": 0, "transitions": 0, "nontrivial": 0, "vio": {},
@@ -459,10 +460,24 @@ def run_repeats(task):
         vals = [v * sc for v in vals]
         for seq in itertools.product(vals, repeat=mx):
             calls = [0]
+            # what the sampled function hands back: a float, a numpy
+            # scalar, a fresh 0-d / one-element array, or one buffer it
+            # overwrites on every call
+            form = core.pick([list(seq), rtol, mn, "form"], 6)
+            buf = np.zeros(())
 
             def gen():
                 v = seq[min(calls[0], len(seq) - 1)]
                 calls[0] += 1
+                if form == 1:
+                    return np.float64(v)
+                if form == 2:
+                    return np.array(v)
+                if form == 3:
+                    return np.array([v])
+                if form == 4:
+                    buf[...] = v
+                    return buf
                 return v
             try:
                 rs, xs = estimate_from_repeats(
@@ -476,8 +491,9 @@ def run_repeats(task):
             out["transitions"] += calls[0]
             n = calls[0]
             case = {"seq": list(seq), "rtol": rtol, "tol_scale": ts,
-                    "min_samples": mn, "max_samples": mx}
-            if rs.count != n or n > mx or list(xs) != list(seq[:n]):
+                    "min_samples": mn, "max_samples": mx, "form": form}
+            if rs.count != n or n > mx or (form != 4 and np.asarray(
+                    xs, dtype=float).ravel().tolist() != list(seq[:n])):
                 out["vio"].setdefault(tag + "count", (
                     case, "count %r, calls %d, limit %d" % (rs.count, n, mx)))
                 continue
